@@ -1,14 +1,9 @@
-"""Regions of the known C07 findings.  Narrow on purpose: anything else that fails is a VIOLATION."""
+"""Regions of the known C07 findings.  Narrow on purpose: anything else that fails is a VIOLATION.
+
+No region is open: F-diag-fill (diagonal/diagonalize dropped the fill) and F-sum-nonfinite-fill (add-reductions added fill*0 = NaN
+to lanes without unstored elements) were repaired upstream; their witnesses stay in harness/c07.py and must pass."""
 from __future__ import annotations
 
 
 def classify(name, case, msg):
-    op = case.get("op", name) if isinstance(case, dict) else name
-    base = op.split("[")[0]
-    # F-sum-nonfinite-fill: reductions with np.add add `fill * (number of unstored elements of the lane)`; for a lane without
-    # unstored elements and a fill in {NaN, +inf, -inf} that is fill * 0 = NaN.  Region: add-reductions over an axis, non-finite
-    # fill, the answer is NaN exactly in such lanes and right everywhere else (checked on the case by the harness).
-    if base in ("sum", "mean", "var", "std", "nansum", "nanmean", "nanreduce", "vecdot") and msg.startswith("silent:") \
-            and case.get("fill") in ("nan", "+inf", "-inf") and case.get("wrong_only_in_full_lanes") is True:
-        return "F-sum-nonfinite-fill"
     return None
